@@ -16,7 +16,7 @@ func init() {
 		Spec: func(tier string) evid.Spec {
 			return evid.Spec{ID: "C18", Level: "model_checking", Exhaustive: true,
 				Rule: "the C10 configuration with every password and both shared secrets replaced by unique VERIF_SEED-derived tokens; a recording logger implementing the handlers' logger interface (Infof/Errorf/Debugf/Record/Set) at all levels; " +
-					"histories: depth <= 3 over the C10 core alphabet and depth 2 over the full one (x 2 session ids), plus the full START product action{1,2,4} x type{1..6} x service{0,1,2} x minor{0,1} carrying a password token in data, alone and followed by a CONTINUE. " +
+					"histories: depth <= 3 over the C10 core alphabet, depth 3 over the ASCII-login packets plus passwords containing a non-ASCII byte (which travel the decode-error paths), and depth 2 over the full alphabet (x 2 session ids), plus the full START product action{1,2,4} x type{1..6} x service{0,1,2} x minor{0,1} carrying a password token in data, alone and followed by a CONTINUE. " +
 					"A token counts as a presented password when it travels in the data of a START whose authen_type is PAP or in the CONTINUE answering GETPASS (a token sent anywhere else, e.g. typed as a user name, is dropped from the watch list for that history). " +
 					"Oracle after every packet: no watched token and no shared secret occurs in any formatted message, in any Record value whose key the same call does not list as obscured, in any field selected by key in a Set (retention) call, " +
 					"or in any reply handed to a response logger. states = distinct session-stage states; transitions = packets delivered",
@@ -53,10 +53,10 @@ func (w *c18Watch) step(s stepInfo) (kind, msg string) {
 		elsewhere := false
 		switch p.Kind {
 		case "pap":
-			asPassword = p.Pw == tok
-			elsewhere = p.User == tok
+			asPassword = strings.Contains(p.Pw, tok)
+			elsewhere = strings.Contains(p.User, tok)
 		case "start":
-			if p.Pw == tok {
+			if strings.Contains(p.Pw, tok) {
 				if p.AType == 2 {
 					asPassword = true
 				} else {
@@ -64,7 +64,7 @@ func (w *c18Watch) step(s stepInfo) (kind, msg string) {
 				}
 			}
 		case "cont":
-			if p.Msg == tok {
+			if strings.Contains(p.Msg, tok) {
 				if stage == "getpass" {
 					asPassword = true
 				} else {
@@ -152,6 +152,20 @@ func c18Run(c *Ctx) {
 	}
 	tag := func(cs *rCase) {}
 	_ = tag
+	// passwords with a byte outside ASCII (the codec rejects them in ASCII-only fields, so they travel the error paths)
+	na := c10Alphabet(e, true)
+	var extra []rPkt
+	for sid := 0; sid < 2; sid++ {
+		extra = append(extra, rPkt{Kind: "cont", Msg: e.Sec.Own + "\xe9", Sid: sid}, rPkt{Kind: "cont", Msg: "\xe9" + e.Sec.Group2, Sid: sid},
+			rPkt{Kind: "pap", User: "own", Pw: e.Sec.Own + "\xe9", Sid: sid}, rPkt{Kind: "start", Action: 1, AType: 2, Service: 1, Minor: 0, User: "own", Pw: e.Sec.Own + "\xe9", Sid: sid})
+	}
+	var core2 []rPkt
+	for _, p := range na {
+		if p.Kind == "ascii" || (p.Kind == "cont" && (p.Msg == "own" || p.Msg == "viagroup" || p.Msg == "")) {
+			core2 = append(core2, p)
+		}
+	}
+	rExploreTok(c, e, append(core2, extra...), 3, step)
 	rExploreTok(c, e, c10Alphabet(e, true), tierPick(c.Quick, 3, 3), step)
 	rExploreTok(c, e, c10Alphabet(e, false), tierPick(c.Quick, 2, 3), step)
 	// full START product carrying a token in data, alone and followed by a CONTINUE
